@@ -53,6 +53,15 @@ Theorem C01_close_decision_is_either_side_asked : forall c d e,
 Proof. exact handle_close. Qed.
 Print Assumptions C01_close_decision_is_either_side_asked.
 
+(* Whether the origin reads the whole request body before it answers, only part
+   of it, or none of it makes no difference to what the proxy forwards, returns
+   and decides about the connection: the state of the client connection after
+   an exchange does not depend on the origin's reading behaviour. *)
+Theorem C01_origin_read_mode_irrelevant : forall (f : exchange -> readmode) es,
+  run (map (fun e => mkEx (rq e) (rs e) (f e)) es) = run es.
+Proof. intros f es. exact (conn_run_rd_irrelevant false id_body f es). Qed.
+Print Assumptions C01_origin_read_mode_irrelevant.
+
 (* Requests: same method, target, body, and for every end-to-end header the
    client sent the same values in the same order.  FALSE at full strength of
    the faithful model: net/http's Request.write forwards only the first
@@ -70,7 +79,7 @@ Print Assumptions C01_headers_endtoend_refuted.
    User-Agent field.  Then the whole property holds of every script. *)
 Theorem C01_headers_endtoend_partial : forall es,
   (forall e, In e es -> wf_req (rq e) = true) ->
-  Forall2 req_preserved (map rq (served es)) (origin_saw (run es)).
+  Forall2 req_preserved_x (served es) (origin_saw (run es)).
 Proof. intros es H. exact (proj1 (run_holds es H)). Qed.
 Print Assumptions C01_headers_endtoend_partial.
 
@@ -101,11 +110,11 @@ Definition example_script : list exchange :=
              (s "Connection", s "x-hop, keep-alive"); (s "X-Hop", s "h"); (s "Pragma", s "no-cache")]
             (mkBody 4097 11) RqChunked)
          (Resp (mkResp 200 false [(s "Set-Cookie", s "a"); (s "set-cookie", s "b"); (s "Keep-Alive", s "t")]
-            (mkBody 65536 12) FChunked));
+            (mkBody 65536 12) FChunked)) (ReadSome 100);
     mkEx (mkReq (s "GET") OriginForm (s "/c") false [(s "Host", s "ORIGIN")] (mkBody 0 0) RqNone)
-         (Resp (mkResp 404 true [(s "ETag", s "e")] (mkBody 3 13) FCL));
+         (Resp (mkResp 404 true [(s "ETag", s "e")] (mkBody 3 13) FCL)) ReadAll;
     mkEx (mkReq (s "GET") OriginForm (s "/never") false [(s "Host", s "ORIGIN")] (mkBody 0 0) RqNone)
-         (Resp (mkResp 200 false [] (mkBody 1 14) FCL)) ].
+         (Resp (mkResp 200 false [] (mkBody 1 14) FCL)) ReadAll ].
 
 Example C01_example :
   forallb (fun e => wf_req (rq e)) example_script = true /\
